@@ -200,7 +200,18 @@ def r133(ctx):
            where=f"{b.file}:{b.line}", sample=rr)
     kr = render(keym[2]) if keym and keym[0] == "let" else "?"
     okk = "trusted_oracle_pubkeys" in kr and "count" in kr and "filter" in kr
-    ctx.ob("R13.3", okk, f"{b.name}/key-matches-source", f"key_matches is computed as `{kr[:200]}`",
+    # the collection that is iterated and counted is the set of trusted oracles (one vote per trusted key), not the
+    # attestation list (an oracle listed twice would count twice)
+    from engine.cfg import peel
+    base = None
+    if keym and keym[0] == "let":
+        for x in subexprs(keym[2]):
+            if x[0] == "call" and x[1].endswith("::filter") and x[2]:
+                base = render(peel(x[2][0]))
+    okk = okk and base is not None and base.endswith("trusted_oracle_pubkeys")
+    ctx.ob("R13.3", okk, f"{b.name}/key-matches-source",
+           f"key_matches must count trusted oracle keys that have an attestation (iterating trusted_oracle_pubkeys); it is "
+           f"computed as `{kr[:200]}`",
            where=f"{b.file}:{b.line}", sample=kr[:160])
     # the filter closure compares trusted_key with attestation keys
     cl = [c for c in ctx.prog.closures_of(b)]
